@@ -339,14 +339,16 @@ PROPS = {
                        "independence of symbol tables (they are rebuilt, not copied)",
     },
     "C18": {
-        "rules": [lambda prog, tier: pair.run(prog, heap=True), lambda prog, tier: structfree.run(prog), lambda prog, tier: slotleak.run(prog)],
+        "rules": [lambda prog, tier: pair.run(prog, heap=True), lambda prog, tier: structfree.run(prog), lambda prog, tier: structfree.run_nodefree(prog),
+                  lambda prog, tier: slotleak.run(prog)],
         "technique": "resource typestate dataflow per function on clang::CFG (set-of-tuples, return-code and parameter-fact correlation, "
                      "allocation-fault and noreturn edges excluded); destructor coverage by ownership inference from release sites",
         "explanation": "Decides two structural clauses of C18 on all paths, including every parse-error and rejected-argument exit: (R-PAIR) "
                        "every local GMP number that is initialised is cleared, and every heap block held by a local pointer is released or "
                        "handed over, on every path to every return; (R-SLOTLEAK) a fresh block parked in the append slot [count] of a "
                        "problem's name array is followed on every path to a return by the increment of that count or by the release "
-                       "of the slot (rejected edits); (R-STRUCTFREE) every pointer field of a record into which the library "
+                       "of the slot (rejected edits); (R-NODEFREE) an object of a record type that owns heap blocks is released only after "
+                       "those blocks (directly, or by the record's destructor called on the same pointer); (R-STRUCTFREE) every pointer field of a record into which the library "
                        "stores a fresh allocation is released by a function that frees fields of that record through a parameter of its type.",
         "level_text": "All-paths pairing guarantee for local resources in every function of the rational instantiation (622 resources in 312 "
                       "functions), which is where the early-exit leaks of the property live (invisible to dynamic leak checkers with the slab "
